@@ -74,23 +74,75 @@ MultiGet(d, ks) == IF ElemsOf(ks) \subseteq KeySet(d) THEN <<"list", [i \in 1..L
 NewKey(ren, k)  == IF k \in DOMAIN ren THEN ren[k] ELSE k
 Collides(d, ren) == \E k1, k2 \in KeySet(d) : k1 # k2 /\ NewKey(ren, k1) = NewKey(ren, k2)
 Relabel(d, ren) == [n \in {NewKey(ren, k) : k \in KeySet(d)} |-> At(d, CHOOSE k \in KeySet(d) : NewKey(ren, k) = n)]
+\* the spellings of one relabel call: an optional BLANKET rule for all keys - <<"none">>, <<"prefix", s>>, <<"suffix", s>>
+\* or <<"map", ren>> (a dict old -> new, or a callable) - together with INDIVIDUAL relabels (keywords old = new).
+\* "Exactly the expected keys": a key named by an individual relabel gets that name, every other key follows
+\* the blanket rule (individual relabels are never dropped, whatever the blanket rule is)
+BlanketOf(d, bl) == CASE bl[1] = "prefix" -> [k \in KeySet(d) |-> bl[2] \o k]
+                      [] bl[1] = "suffix" -> [k \in KeySet(d) |-> k \o bl[2]]
+                      [] bl[1] = "map"    -> bl[2]
+                      [] OTHER            -> <<>>
+Renaming(d, bl, indiv) == LET r == BlanketOf(d, bl) IN
+                          [k \in DOMAIN r \cup DOMAIN indiv |-> IF k \in DOMAIN indiv THEN indiv[k] ELSE r[k]]
 
 \* ------------------------------------------------------------------------------------------
 \* 3. Dict.__call__: evaluation of definitions in dependency order
-\*    par : derived key -> sequence of its parameter names; base: the mapping before the call.
-\*    A parameter that is itself being defined waits for the new value; any other is read from
-\*    the mapping.  The value a definition computes is the tuple (key, arg1, arg2, ...), so
-\*    that a value identifies the whole evaluation that produced it.
-\*    Definitions that take their own key as a parameter (b = lambda b: ...) mean "the previous
-\*    value" in the code and are outside the property: NoSelfLoops.
+\*    par  : derived key -> sequence of the names of its NAMED parameters, as declared
+\*    kin  : derived key -> sequence of the kinds of those parameters:
+\*             "req" / "opt"      positional-or-keyword, without / with a default value
+\*             "kwreq" / "kwopt"  keyword-only,          without / with a default value
+\*    star : derived key -> "", "args", "kw" or "args_kw": the definition also declares *args
+\*           and / or **kwargs
+\*    shape: derived key -> what kind of callable value carries that declaration: "def" a plain
+\*           function, "obj" an object with a __call__ method, "partial" a functools.partial of
+\*           a function whose first positional parameter is bound (the law does not look at it:
+\*           "callable values")
+\*    base : the mapping before the call.
+\*    "Arguments taken by name from the mapping": a parameter is an argument called by its name,
+\*    whatever its kind.  One that is itself being defined waits for the new value (an EDGE of the
+\*    dependency graph - of the kind of the parameter); any other is read from the mapping; only
+\*    a name the mapping does not have at all falls back on the parameter's own default.  The
+\*    statement orders the evaluation by the edges and calls a cycle of edges circular: it makes
+\*    no difference between edges through required and through defaulted parameters.
+\*    The value a definition computes is the tuple (key, arg1, arg2, ...) of what it received for
+\*    its named parameters, so that a value identifies the whole evaluation that produced it; a
+\*    default is the marker ("default", key, parameter).
+\*    Outside the property (named exclusions):
+\*      NoSelfLoops    b = lambda b: ... means "the previous value" in the code
+\*      Grounded       a parameter without a default names something the mapping or another
+\*                     definition provides (otherwise the call of the definition is a TypeError)
+\*      NoHiddenKey    the code hands every definition a hidden extra argument key = <its name>
+\*                     which an entry "key" of the mapping must trump; a parameter called "key"
+\*                     without such an entry receives it, and the statement is silent about that
+\*      StarsUnjudged  what arrives in *args / **kwargs (the code: nothing / the whole mapping)
+\*                     is not "taken by name": the value does not report it
 \* ------------------------------------------------------------------------------------------
+ParamKinds == {"req", "opt", "kwreq", "kwopt"}
+Stars      == {"", "args", "kw", "args_kw"}
+Shapes     == {"def", "obj", "partial"}
+HasDefault(kind) == kind \in {"opt", "kwopt"}
+KwOnly(kind)     == kind \in {"kwreq", "kwopt"}
+\* Python's grammar: positional parameters without a default, then those with one, then keyword-only ones
+KindRank(kind)   == CASE kind = "req" -> 1 [] kind = "opt" -> 2 [] OTHER -> 3
 ParSet(par, k)   == {par[k][i] : i \in 1..Len(par[k])}
+WellFormed(par, kin, star, shape) ==
+    /\ DOMAIN kin = DOMAIN par /\ DOMAIN star = DOMAIN par /\ DOMAIN shape = DOMAIN par
+    /\ \A k \in DOMAIN par : /\ Len(kin[k]) = Len(par[k]) /\ star[k] \in Stars /\ shape[k] \in Shapes
+                             /\ \A i \in 1..Len(par[k]) : kin[k][i] \in ParamKinds
+                             /\ \A i, j \in 1..Len(par[k]) : i < j => par[k][i] # par[k][j] /\ KindRank(kin[k][i]) <= KindRank(kin[k][j])
 NoSelfLoops(par) == \A k \in DOMAIN par : k \notin ParSet(par, k)
-Grounded(par, base) == \A k \in DOMAIN par : ParSet(par, k) \subseteq DOMAIN par \cup DOMAIN base
-ValOf(k, ps, m)  == VTup(<<VStr(k)>> \o [i \in 1..Len(ps) |-> m[ps[i]]])
+Grounded(par, kin, base) == \A k \in DOMAIN par : \A i \in 1..Len(par[k]) :
+                               ~HasDefault(kin[k][i]) => par[k][i] \in DOMAIN par \cup DOMAIN base
+NoHiddenKey(par, base)   == \A k \in DOMAIN par : "key" \in ParSet(par, k) => "key" \in DOMAIN par \cup DOMAIN base
+AllReq(par)  == [k \in DOMAIN par |-> [i \in 1..Len(par[k]) |-> "req"]]       \* every parameter required, no stars:
+NoStars(par) == [k \in DOMAIN par |-> ""]                                        \* the plain definitions
+Dflt(k, p)       == VTup(<<VStr("default"), VStr(k), VStr(p)>>)
+ArgOf(k, p, m)   == IF p \in DOMAIN m THEN m[p] ELSE Dflt(k, p)
+ValOf(k, ps, m)  == VTup(<<VStr(k)>> \o [i \in 1..Len(ps) |-> ArgOf(k, ps[i], m)])
 Put(m, k, v)     == [x \in DOMAIN m \cup {k} |-> IF x = k THEN v ELSE m[x]]
 
-\* the machine: one action per evaluation of a definition
+\* the machine: one action per evaluation of a definition; k may be evaluated when none of its
+\* named parameters - of whatever kind - is still pending
 CanEval(k, pending, par) == k \in pending /\ ParSet(par, k) \cap pending = {}
 Stuck(pending, par)      == pending # {} /\ \A k \in pending : ~CanEval(k, pending, par)
 
@@ -102,17 +154,28 @@ ReachN(S, par, n) == IF n = 0 THEN S ELSE ReachN(S \cup UNION {Succ(par, x) : x 
 Cyclic(par) == \E k \in DOMAIN par : k \in ReachN(Succ(par, k), par, Cardinality(DOMAIN par))
 RECURSIVE Fin(_, _, _)
 Fin(k, par, base) == VTup(<<VStr(k)>> \o [i \in 1..Len(par[k]) |->
-                              IF par[k][i] \in DOMAIN par THEN Fin(par[k][i], par, base) ELSE base[par[k][i]]])
+                              LET p == par[k][i] IN
+                              IF p \in DOMAIN par THEN Fin(p, par, base)                \* (a) derived in the same call: the NEW value
+                              ELSE IF p \in DOMAIN base THEN base[p]                    \* (b) already in the mapping
+                              ELSE Dflt(k, p)])                                         \* (c) nowhere: the parameter's default
 Outcome(par, base) == IF Cyclic(par) THEN Raises("ValueError")
                       ELSE <<"map", [k \in DOMAIN base \cup DOMAIN par |-> IF k \in DOMAIN par THEN Fin(k, par, base) ELSE base[k]]>>
 
-\* mechanism (the code): evaluate all currently independent definitions, layer by layer; the last
-\* remaining definition is evaluated without looking at its parameters
-RECURSIVE Layered(_, _, _)
-Layered(rem, m, par) ==
-    IF rem = {} THEN <<"map", m>>
-    ELSE IF Cardinality(rem) = 1 THEN LET k == CHOOSE x \in rem : TRUE IN <<"map", Put(m, k, ValOf(k, par[k], m))>>
-    ELSE LET ind == {k \in rem : ParSet(par, k) \cap rem = {}} IN
-         IF ind = {} THEN Raises("ValueError")
-         ELSE Layered(rem \ ind, [x \in DOMAIN m \cup ind |-> IF x \in ind THEN ValOf(x, par[x], m) ELSE m[x]], par)
+\* mechanism (the code): the definitions, in keyword order `rem`, are evaluated layer by layer: all those that
+\* depend (dep[k] = the names that make k wait) on no remaining definition, one after the other in keyword
+\* order, each seeing what the ones before it stored; the last remaining definition is evaluated without
+\* looking at its parameters.  Today's code: dep[k] = every named parameter (DepAll); DepRequired is the
+\* variant that lets defaulted parameters through (it breaks the law: MC_Algebra_reqonly.cfg)
+RECURSIVE EvalSeq(_, _, _)
+EvalSeq(ks, m, par) == IF ks = <<>> THEN m
+                       ELSE EvalSeq(Tail(ks), Put(m, Head(ks), ValOf(Head(ks), par[Head(ks)], m)), par)
+RECURSIVE Layered(_, _, _, _)
+Layered(rem, m, par, dep) ==
+    IF Len(rem) <= 1 THEN <<"map", EvalSeq(rem, m, par)>>
+    ELSE LET ind == SelectSeq(rem, LAMBDA k : dep[k] \cap ElemsOf(rem) = {}) IN
+         IF ind = <<>> THEN Raises("ValueError")
+         ELSE Layered(SelectSeq(rem, LAMBDA k : k \notin ElemsOf(ind)), EvalSeq(ind, m, par), par, dep)
+DepAll(par)           == [k \in DOMAIN par |-> ParSet(par, k)]
+DepRequired(par, kin) == [k \in DOMAIN par |-> {par[k][i] : i \in {j \in 1..Len(par[k]) : ~HasDefault(kin[k][j])}}]
+DepPositional(par, kin) == [k \in DOMAIN par |-> {par[k][i] : i \in {j \in 1..Len(par[k]) : ~KwOnly(kin[k][j])}}]
 =============================================================================
